@@ -194,8 +194,30 @@ def _mk_generate(schema):
     return setup, fn
 
 
+def _twins():
+    """pairs of operations whose schemas define the same type names differently (symbol order, field order) and that
+    write equal-comparing but differently encoded leaves: a cache keyed by name or by value shows up as a history"""
+    L = []
+    suit1 = {"type": "record", "name": "game.Card", "fields": [{"name": "s", "type": {"type": "enum", "name": "game.Suit", "symbols": ["SPADES", "HEARTS", "CLUBS"]}},
+                                                                 {"name": "n", "type": "int"}]}
+    suit2 = {"type": "record", "name": "game.Card", "fields": [{"name": "n", "type": "int"},
+                                                                 {"name": "s", "type": {"type": "enum", "name": "game.Suit", "symbols": ["CLUBS", "JOKER", "HEARTS", "SPADES"]}}]}
+    for nm, sch in (("enum_v1", suit1), ("enum_v2", suit2)):
+        su, fn = _mk_write(sch, {"s": "SPADES", "n": 5})
+        L.append(Op("write_" + nm, su, fn, "same type names, different definitions"))
+        su, fn = _mk_read(sch, {"s": "HEARTS", "n": -5})
+        L.append(Op("read_" + nm, su, fn))
+        su, fn = _mk_validate(sch, [{"s": "JOKER", "n": 1}, {"s": "CLUBS", "n": 1}])
+        L.append(Op("validate_" + nm, su, fn))
+    fl = {"type": "record", "name": "Fl", "fields": [{"name": "f", "type": "float"}, {"name": "d", "type": "double"}, {"name": "l", "type": "long"}]}
+    for nm, d in (("zeros_pos", {"f": 0.0, "d": 0.0, "l": 0}), ("zeros_neg", {"f": -0.0, "d": -0.0, "l": 0}), ("ints_as_floats", {"f": 0, "d": 1, "l": 1})):
+        su, fn = _mk_write(fl, d)
+        L.append(Op("write_" + nm, su, fn, "equal-comparing values with different encodings"))
+    return L
+
+
 def _all_ops():
-    L = _ops()
+    L = _ops() + _twins()
     rec_g = dict(REC_W, fields=REC_W["fields"] + [{"name": "addr2", "type": "Addr"}, {"name": "k2", "type": "shop.Kind"}])
     su, fn = _mk_generate(rec_g)
     L.append(Op("generate_rec", su, fn, "generate_one on a parsed schema with by-name references"))
